@@ -26,7 +26,7 @@ META = {
     'property_id': 'C10',
     'technique': 'Lean 4 theorems over a model of unexports2 symbol lookup (all tables, names, 64-bit biases, call histories) + differential run of the real package against the model on every symbol of test binaries built in several link modes and patched variants, with a runtime-table / &v oracle',
     'level': 'proof',
-    'level_text': 'Partial: proved for every table, name, bias and call history that a lookup returns an address iff the table has an entry with exactly that name (first wins) and then its table address plus the slide recovered from the anchor, that absent names and every kind of unreadable table (no .gopclntab as in PIE, no .text, not ELF, bad pclntab; no ELF symbols for variables) give an error for every call, and that results do not depend on earlier calls. That the loader maps every other symbol with the same bias as the anchor is assumed, and checked on every symbol of the built binaries.',
+    'level_text': 'Partial: proved for every table, name, bias and call history that a lookup returns an address iff the table has an entry with exactly that name (first wins) and then its table address plus the slide recovered from the anchor, that absent names and every kind of unreadable table (no .gopclntab as in PIE, no .text, not ELF, bad pclntab; no ELF symbols for variables) give an error for every call, and that results do not depend on earlier calls — lookups, ExposeFunction and AllFunctions listings alike (history_independent, run_pointwise, all_functions_spec); histories in which the caller clears/filters/edits the listing it was handed are run against the real package. That the loader maps every other symbol with the same bias as the anchor is assumed, and checked on every symbol of the built binaries.',
     'level_note': 'Trusted: Lean kernel (axioms propext, Classical.choice, Quot.sound at most); the linker/loader contract (one bias for all functions, one for all data symbols; pclntab entry = runtime.text-relative offset); debug/elf and debug/gosym parse the file as the check\'s own independent reader does (differentially checked on every run); the hand model Model/Sym.lean (differentially checked on every query). Not covered: darwin/windows readers (cannot run here), pclntab names that occur more than once (first wins; counted). Concurrent callers: proved for every schedule of whole calls (conc_any_schedule); that sync.Once makes a call atomic with respect to the alignment state is trusted and observed by the concurrent-first-use lane (goroutines released from a barrier in fresh processes of slid executables — a test, not a proof). Executable file deleted/replaced before first use: required behaviour (error) proved as exe_gone_is_error and observed in child processes; replacement by a DIFFERENT binary at the same path is not exercised.',
 }
 
@@ -377,6 +377,16 @@ def facts_of(binary, tag):
 
 def oracle(case, q, obs, rt):
     """The property on what the real process did for one query.  Returns None or the complaint."""
+    if q[0] == 'a':
+        d = case['desc']
+        ok = d.get('open', True) and d.get('elf', True) and d['text'] is not None and d['pcln'] not in (None, 'bad')
+        if obs is None or obs.startswith('panic') or not (obs.startswith('set:') or obs.startswith('err:')):
+            return f'AllFunctions must return a set or an error, got {obs}'
+        if ok and obs != f'set:{len(case["fnames"])}':
+            return f'AllFunctions returned {obs}; the table of this file has {len(case["fnames"])} distinct function names'
+        if not ok and obs.startswith('set:'):
+            return f'table cannot be read from this file but AllFunctions returned {obs}'
+        return None
     if q[0] in 'FMV':
         if q[0] == 'F' and q.endswith('|'):
             return None if obs == 'panic:empty-name' else f'ExportFunc("") must be refused, got {obs}'
@@ -534,6 +544,33 @@ def small_queries(case, comp, r, k, miss):
     return q
 
 
+def allfuncs_histories(cases, comp, rng, tier):
+    """AllFunctions() between lookups, the caller editing the set it was handed (clear it, filter it down to one package,
+    delete a name, insert a made-up name): a listing is a fresh value, later lookups of names of every kind and later
+    listings must be unaffected."""
+    hs = []
+    for case in cases:
+        if not (case['variant'] == 'as-linked' or case['variant'] in FULL_SWEEP_VARIANTS or tier == 'thorough'):
+            continue
+        r = rng.fork('q-allfuncs-' + case['id'])
+        fnl = list(case['fnames_raw']) or [x.encode() for x in comp['funcs']]
+        k = 40 if tier == 'quick' else 400
+        q = [('a:none', 'allfuncs')] if r.below(2) else []          # also: AllFunctions as the very first call of the process
+        q += small_queries(case, comp, r, 8, 2)
+        victim = fnl[r.below(len(fnl))]
+        for edit in ('a:del=' + esc(victim), 'a:add=' + esc(PKG.encode() + b'.zzNoSuchFunc'), 'a:keep=' + esc(r.choice([b'runtime.', PKG.encode(), b'zz'])),
+                     'a:clear', 'a:none'):
+            q.append((edit, 'allfuncs'))
+            q += [('f:' + esc(victim), 'func'), ('x:' + esc(victim), 'expose'), ('f:' + esc(PKG.encode() + b'.zzNoSuchFunc'), 'miss-made-up')]
+            q += small_queries(case, comp, r, k, k // 10)
+        q.append(('a:none', 'allfuncs'))
+        h = dict(case)
+        h['id'] = case['id'] + '.allfuncs'
+        h['queries'] = q
+        hs.append(h)
+    return hs
+
+
 def conc_histories(cases, comp, rng, tier):
     """Concurrent first use: N goroutines released from a spin barrier, each doing its first lookup, on executables whose
     slide is not zero (there a lookup that overtakes the once-only initialisation is visibly wrong); fresh process each."""
@@ -549,6 +586,8 @@ def conc_histories(cases, comp, rng, tier):
                 h['id'] = f'{case["id"]}.conc{n}.{rep}'
                 h['g'] = n
                 h['queries'] = small_queries(case, comp, rng.fork('q-' + h['id']), 6 * n, n // 2)
+                for j, edit in enumerate(('a:clear', 'a:keep=runtime.', 'a:none')):      # never among the first n: those are the racing first lookups
+                    h['queries'].insert(n + (j * 2 * n + rep) % (len(h['queries']) - n), (edit, 'allfuncs'))
                 hs.append(h)
     return hs
 
@@ -612,7 +651,7 @@ def run(tier):
             h2['queries'] = [('x:' + esc(n), 'expose-first') for n in pick] + [('f:' + esc(n), 'func') for n in pick] + \
                             [('x:' + esc(n), 'expose') for n in pick] + [('v:' + esc(AV.encode()), 'sym')]
             hist.append(h2)
-    hist += conc_histories(cases, comp, rng, tier) + self_histories(cases, comp, rng, tier)
+    hist += conc_histories(cases, comp, rng, tier) + self_histories(cases, comp, rng, tier) + allfuncs_histories(cases, comp, rng, tier)
     for case in prepare_api(tier, C.seed()):
         cases.append(case)
         h = dict(case)
@@ -658,13 +697,29 @@ def run(tier):
             diffs.append((case, -1, None, 'model rejected the history line (bad-op)'))
     # ---- classify
     seen = set()
-    for case, i, why in sorted(bad, key=lambda b: b[0]['variant'] != 'as-linked'):     # executables exactly as linked first, one line per history
+    # deterministic histories first, executables exactly as linked first, one line per history
+    for case, i, why in sorted(bad, key=lambda b: (bool(b[0].get('g')), b[0]['variant'] != 'as-linked')):
         q = case['queries'][i][0]
         k = case['id']
         if k in seen or len(seen) >= 4:
             continue
         seen.add(k)
-        out.violation(f'[{case["id"]}] {q}: {why}', replay_body(case, comp_spec, [x for x, _ in case['queries']] if case.get('g') else [q], i, why))
+        allq = [x for x, _ in case['queries']]
+        if case.get('g'):
+            rq = allq                                   # a race: the whole history, replay repeats fresh processes
+        else:
+            # smallest of: the call alone / the AllFunctions calls before it + the call / the whole prefix — that still fails
+            rq = allq[:i + 1]
+            for cand in ([q], [x for x in allq[:i] if x[0] == 'a'] + [q]):
+                t = dict(case)
+                t['id'] = case['id'] + '.shrink'
+                t['queries'] = [(x, 'replay') for x in cand]
+                run_case(t, None)
+                if oracle(t, q, t['impl'][-1], t['rt'][-1]):
+                    rq = cand
+                    break
+        out.violation(f'[{case["id"]}] {q}: {why}' + (f' (after {len(rq) - 1} earlier call(s) of the same process: {" ".join(rq[:-1])[:200]})' if len(rq) > 1 and not case.get('g') else ''),
+                      replay_body(case, comp_spec, rq, i, why))
     if not bad:
         if diffs:
             case, i, o, m = diffs[0]
@@ -698,7 +753,7 @@ def run(tier):
                          'not covered: symbols_darwin.go, symbols_windows.go (not executable here)'],
         'theorems': proof['axioms'], 'proof_failures': proof['failed'],
         'evaluations': total, 'distinct_nontrivial': len(distinct), 'traces_validated_against_impl': agreed,
-        'rule': 'one evaluation = one lookup call (FindFuncByName / FindVarByName / ExposeFunction) in a real process of one executable; '
+        'rule': 'one evaluation = one call (FindFuncByName / FindVarByName / ExposeFunction / AllFunctions followed by a caller-side edit of the returned set) in a real process of one executable; '
                 'non-trivial = the call returned an address; distinct by (executable, call, address). as-linked executables: every pclntab function, every ELF symbol, '
                 'cross-kind and near-miss names; patched executables: a random sample of both tables plus the generated symbols (thorough: complete sweep also for one text slide, one data slide and the double slide)',
         'distribution': {'executables': per_mode, 'histories': len(hist), 'outcomes_by_history': stats, 'oracle_complaints': len(bad),
